@@ -178,3 +178,25 @@ Example C03_history_full_example :
   exists ds, outs ex_d (step ex_d (mk_w (init_ctx 16) ex_or 0%Z [] false []) COpen) ex_tail ds /\
     read_all ex_d (pkts (obs (w_log (run ex_d 16 [] ex_or (COpen :: ex_tail))))) = Some (List.concat ds).
 Proof. exact history_full_example. Qed.
+
+(* ------------------------------------------------------------------ tie by translation *)
+(* _reserve_er_space and _commit_er as REGENERATED from barectf.c.j2 on every run (tools/c2coq.py ->
+   Gen/CSkelFuns.v), run by the semantics of Tracer/CSkel.v, are the model functions every theorem
+   above speaks about: Model.reserve (return value and world) and the commit step of Model.trace_fn.
+   A change to the control flow of those C functions breaks these theorems (or the fail-closed
+   translator) before any differential run. *)
+From BT.Tracer Require Import CSkel CSkelProofs.
+From BT.Gen Require Import CSkelFuns.
+Theorem C03_reserve_is_the_translated_C :
+  forall d w n,
+    run_fun d skel_funs [("er_size"%string, n)] fn_reserve_er_space w =
+    Some (Some (if fst (reserve d w n) then 1 else 0), snd (reserve d w n)).
+Proof. exact skel_reserve. Qed.
+Print Assumptions C03_reserve_is_the_translated_C.
+
+Theorem C03_commit_is_the_translated_C :
+  forall d w,
+    run_fun d skel_funs [] fn_commit_er w =
+    Some (None, if Nat.eqb (c_at (w_c w)) (c_psize (w_c w)) then close_cb d w else w).
+Proof. exact skel_commit. Qed.
+Print Assumptions C03_commit_is_the_translated_C.
